@@ -21,7 +21,7 @@ SNIPPETS = [
     (9, 'def dec$N(f):\n    return f\n@dec$N\n@(lambda f: f)\ndef h$N() -> int:\n    return "x"\n'),
     (10, 'def m$N(v: int | str | tuple[int, str] | None) -> int:\n    match v:\n        case int(n) if n > 0:\n            return n + ""\n        case str() as s:\n            return s\n        case (a, b):\n            return a + b\n        case None | 0:\n            return 0\n        case _:\n            return v\n'),
     (10, 'def mm$N(d: dict[str, int], l: list[int]) -> None:\n    match d:\n        case {"k": 1, **rest}:\n            rest + 1\n    match l:\n        case [1, *others, 2]:\n            others + 1\n        case [] | [_]:\n            pass\n'),
-    (12, 'type A$N[T] = list[T] | None\ndef p$N[T: int, *Ts, **P](x: T) -> T:\n    return "s"\nclass G$N[T, U = int]:\n    def get(self) -> T:\n        return 1\n'),
+    (12, 'type A$N[T] = list[T] | None\ndef p$N[T: int, *Ts, **P](x: T) -> T:\n    return "s"\nclass G$N[T, U]:\n    def get(self) -> T:\n        return 1\n'),
     (12, 'def fs$N(a: int, b: str) -> int:\n    return f"{a!r:>{b}} {f"{a + b}"} {{}} {a=}"\n'),
     (9, 'def fs2$N(a: int, b: str) -> int:\n    return f"{a!r:>10} {b:{a}} {{}} {a=}" + 1\n'),
     (9, 'def w$N(xs: list[int]) -> str:\n    if (n := len(xs)) > 1:\n        return n\n    while (m := n - 1):\n        n = m\n    return [y := 1, y ** 2]\n'),
@@ -63,7 +63,11 @@ def render(ids_and_snips) -> str:
 
 def programs(max_minor: int = 14):
     """Strategy: (source, min_minor)."""
-    elig = [s for s in SNIPPETS if s[0] <= max_minor]
+    import sys
+
+    # the default parser is the HOST python's ast module: syntax newer than the host cannot be parsed by it
+    # (listed finding) and is not generated
+    elig = [s for s in SNIPPETS if s[0] <= max_minor and s[0] <= sys.version_info[1]]
     return st.lists(st.sampled_from(elig), min_size=2, max_size=7).map(lambda ss: (render(list(enumerate(ss))), max(s[0] for s in ss)))
 
 
